@@ -6,6 +6,7 @@ import PrefVerif.Driver.C17
 import PrefVerif.Driver.IO
 import PrefVerif.Driver.Domains
 import PrefVerif.Driver.C05
+import PrefVerif.Driver.C19
 open Lean PrefVerif.Driver
 
 def handlers : List (String × Handler) := [
@@ -28,7 +29,8 @@ def handlers : List (String × Handler) := [
   ("dom.c1p", Domains.c1p),
   ("dom.nearly", Domains.nearly),
   ("c05.profile", C05.profile),
-  ("c05.matrix", C05.matrix)
+  ("c05.matrix", C05.matrix),
+  ("c19.check", C19.check)
 ]
 
 def dispatch (j : Json) : Json :=
